@@ -191,6 +191,23 @@ def check_damaged(t: str, facts: dict, stats: dict, root: str, *, cli: bool) -> 
             except Exception as e:  # noqa: BLE001
                 out.append(Violation("C07.parse_crashed", "parse_file/save of an erroneous file raised %r" % (e,), None, facts))
             stats["file_roundtrips"] = stats.get("file_roundtrips", 0) + 1
+            # torn write inside a multi-byte character: the file is no longer valid UTF-8.  Whatever the library
+            # does with it (refuse, pass through), the bytes on disk stay as they are
+            wide = [i for i, ch in enumerate(t) if ord(ch) > 127]
+            if wide and not out:
+                torn = raw[: len(t[: wide[0]].encode("utf-8")) + 1]
+                tpath = os.path.join(root, "torn.nix")
+                with open(tpath, "wb") as fh:
+                    fh.write(torn)
+                try:
+                    parse_file(tpath).save()
+                except Exception:  # noqa: BLE001 - a refusal is fine
+                    pass
+                with open(tpath, "rb") as fh:
+                    left = fh.read()
+                stats["torn_multibyte_files"] = stats.get("torn_multibyte_files", 0) + 1
+                if left != torn:
+                    out.append(Violation("C07.file_touched", "a file torn inside a multi-byte character was rewritten: %r -> %r" % (torn[-30:], left[-30:]), None, facts))
         if not out:
             # mapping-style access must refuse as well and leave the text alone
             for what in ("get", "set", "del"):
